@@ -215,6 +215,15 @@ def io_events(B, bb, buf_filter=None, detail=True, subcalls=None):
     t = B.blocks[bb]['t']
     if t['k'] != 'call':
         return []
+    prev_at = getattr(B, '_cur_at', None)
+    B._cur_at = (bb, None)           # values are described as they are at this block (which definition reaches it)
+    try:
+        return _io_events(B, bb, t, buf_filter, detail, subcalls)
+    finally:
+        B._cur_at = prev_at
+
+
+def _io_events(B, bb, t, buf_filter=None, detail=True, subcalls=None):
     p = prim_of(t)
     if p is not None:
         d, w, m = p
